@@ -89,6 +89,18 @@ namespace vt
       run_strings< Root, fam3, tc_full_uw, AA, MO, TL, LFCRLF >( sigma, maxlen );
    }
 
+   // global failure: must/raise/try_catch with and without throwing actions (C05, C08)
+   template< typename Root >
+   void cfgs_exc( const std::string& sigma, int maxlen )
+   {
+      run_strings< Root, pegtl::nothing, tc_full_uw, AA, MR, TE, LFCRLF >( sigma, maxlen );
+      run_strings< Root, pegtl::nothing, tc_hid, AA, MO, TL, LFCRLF >( sigma, maxlen );
+      run_strings< Root, fam1, tc_hid_uw, AN, MR, TE, LFCRLF >( sigma, maxlen );
+      run_strings< Root, fam3, tc_hid_uw, AA, MR, TL, LFCRLF >( sigma, maxlen );
+      run_strings< Root, fam3, tc_full_uw, AA, MO, TE, LFCRLF >( sigma, maxlen );
+      run_strings< Root, fam3, tc_full, AA, MR, TE, LFCRLF >( sigma, maxlen );
+   }
+
    // all five end-of-line policies, eager and lazy (C06)
    template< typename Root >
    void cfgs_eol( const std::string& sigma, int maxlen )
